@@ -100,6 +100,7 @@ func (qs *QueryStore) RebuildIndexes() error {
 		}
 	}
 
+	verifPoint("rebuild.dropped", nil)
 	// Create new index entries in a single transaction
 	return qs.st.DB.Update(func(txn *badger.Txn) error {
 		t := reflect.TypeOf(qs.st.Type())
@@ -174,6 +175,8 @@ func (qs *QueryStore) handleChange(id string, before, after interface{}) {
 }
 
 func (qs *QueryStore) updateIndex(id string, before, after interface{}) error {
+	verifPoint("index.begin", id)
+	defer verifPoint("index.end", id)
 	updated := false
 	errmsg := ""
 	err := qs.st.DB.Update(func(txn *badger.Txn) error {
@@ -215,6 +218,7 @@ func (qs *QueryStore) updateIndex(id string, before, after interface{}) error {
 	if err != nil {
 		return err
 	}
+	verifPoint("index.committed", id)
 	if errmsg != "" {
 		return errors.New("failed to update resource [" + id + "] index:" + errmsg)
 	}
